@@ -104,13 +104,34 @@ def run(rep, props, replay=None):
                             fresh.fit(d, method_smoothing=None)
                         h = UFPCA(n_components=ncomp, method=meth)
                         h.fit(do, method_smoothing=None)
+                        try:                      # use the first fit before refitting (fills whatever is cached lazily)
+                            h.inverse_transform(h.transform(None, method="NumInt" if meth == "covariance" else "InnPro"))
+                        except Exception:  # noqa: BLE001
+                            pass
                         h.fit(d, method_smoothing=None)
+                        # ... and the other way round: this dataset first, then the bigger one
+                        h2 = UFPCA(n_components=ncomp, method=meth)
+                        h2.fit(d, method_smoothing=None)
+                        h2.fit(do, method_smoothing=None)
+                        fresh_o = UFPCA(n_components=ncomp, method=meth)
+                        fresh_o.fit(do, method_smoothing=None)
+                    same_o = (np.array_equal(np.asarray(fresh_o.eigenvalues, float), np.asarray(h2.eigenvalues, float), equal_nan=True)
+                              and np.array_equal(np.asarray(fresh_o.eigenfunctions.values, float),
+                                                 np.asarray(h2.eigenfunctions.values, float), equal_nan=True)
+                              and np.array_equal(np.asarray(fresh_o.covariance.values, float), np.asarray(h2.covariance.values, float),
+                                                 equal_nan=True))
+                    if not same_o:
+                        rep.violation(f"UFPCA({meth}, n_components={ncomp}): a fit on a bigger dataset after a fit on this dataset differs "
+                                      f"from a fresh fit (the estimator keeps state from the earlier fit)",
+                                      {"grid": kind, "method": meth, "n_components": ncomp, "x": C.hexf(x), "X": C.hexf(X)})
                     rep.case((kind, X.tobytes(), meth, repr(ncomp), "refit"), kind=f"history-refit/{meth}")
                     e1, e2 = np.asarray(fresh.eigenvalues, float), np.asarray(h.eigenvalues, float)
                     p1, p2 = np.asarray(fresh.eigenfunctions.values, float), np.asarray(h.eigenfunctions.values, float)
                     m1, m2 = np.asarray(fresh.mean.values, float), np.asarray(h.mean.values, float)
                     same = (e1.shape == e2.shape and p1.shape == p2.shape and np.array_equal(e1, e2, equal_nan=True)
-                            and np.array_equal(p1, p2, equal_nan=True) and np.array_equal(m1, m2, equal_nan=True))
+                            and np.array_equal(p1, p2, equal_nan=True) and np.array_equal(m1, m2, equal_nan=True)
+                            and np.array_equal(np.asarray(fresh.covariance.values, float), np.asarray(h.covariance.values, float),
+                                               equal_nan=True))
                     if not same:
                         rep.violation(f"UFPCA({meth}, n_components={ncomp}): a fit on this dataset after a fit on another dataset differs "
                                       f"from a fresh fit (the estimator keeps state from the earlier fit)",
